@@ -129,8 +129,8 @@ VARIANTS = [
     {"name": "R3 formatter key swaps block and variable", "file": FMT, "expect": "C11.R3",
      "old": "ser_key = (msg.name, block.name, var_name)", "new": "ser_key = (msg.name, var_name, block.name)"},
     {"name": "R3 parser serialises against the first block of the message", "file": FMT, "expect": "C11.R3",
-     "old": "var_val = serializer.serialize(cur_block, var_val)",
-     "new": "var_val = serializer.serialize(msg.blocks[cur_block.name][0], var_val)"},
+     "old": "block[var_name] = serializer.serialize(block, val)",
+     "new": "block[var_name] = serializer.serialize(msg.blocks[block.name][0], val)"},
     {"name": "R3 formatter passes the first block of the list", "file": FMT, "expect": "C11.R3",
      "old": "cls._format_var(msg, block, var_name, val, replacements, beautify)",
      "new": "cls._format_var(msg, block_list[0], var_name, val, replacements, beautify)"},
@@ -236,6 +236,31 @@ VARIANTS = [
      "old": "            new_val |= int(v)\n", "new": "            new_val = new_val | v\n"},
     {"name": "P5 accumulator renamed in IntFlag.encode", "expect": "silent",
      "edits": [{"file": SER, "old": "new_val", "new": "bits", "all": True}]},
+    # ------------------------------------------------------------------ R6
+    {"name": "R6 packed value serialized at its own line again (f60959f reverted)", "file": FMT, "expect": "C11.R6",
+     "old": "                    pending_packed.append((cur_block, var_name, serializer, var_val))\n                    # Hold the variable's place in the block until we can serialize it\n                    var_val = None\n",
+     "new": "                    var_val = serializer.serialize(cur_block, var_val)\n"},
+    {"name": "R6 pending values flushed after every line", "file": FMT, "expect": "C11.R6",
+     "old": "                cur_block[var_name] = var_val\n",
+     "new": "                cur_block[var_name] = var_val\n                _serialize_pending_packed()\n"},
+    {"name": "R6 no flush after the last line", "file": FMT, "expect": "C11.R6",
+     "old": "        _serialize_pending_packed()\n        return msg\n", "new": "        return msg\n"},
+    {"name": "P6 everything flushed once at the end of input", "file": FMT, "expect": "silent",
+     "old": "                _serialize_pending_packed()\n                cur_block = Block(", "new": "                cur_block = Block("},
+    {"name": "P6 closure renamed", "expect": "silent",
+     "edits": [{"file": FMT, "old": "_serialize_pending_packed", "new": "_flush_packed", "all": True}]},
+    {"name": "P6 the closure's drain loop moved into a static helper taking the work list", "expect": "silent",
+     "edits": [{"file": FMT,
+                "old": "            for block, var_name, serializer, val in pending_packed:\n"
+                       "                block[var_name] = serializer.serialize(block, val)\n"
+                       "            pending_packed.clear()\n",
+                "new": "            cls._drain_packed(pending_packed)\n"},
+               {"file": FMT, "old": "    @classmethod\n    def to_human_string(",
+                "new": "    @staticmethod\n    def _drain_packed(todo):\n"
+                       "        for blk, name, ser, raw in todo:\n"
+                       "            blk[name] = ser.serialize(blk, raw)\n"
+                       "        todo.clear()\n\n"
+                       "    @classmethod\n    def to_human_string("}]},
     # ------------------------------------------------------------------ documented limits
     {"name": "X wrap width changed (line-wrapping details are value level)", "file": FMT, "expect": "miss",
      "old": "HippoPrettyPrinter(width=100)", "new": "HippoPrettyPrinter(width=40)"},
